@@ -398,6 +398,57 @@ def binding_rule(prog, res, contract):
     res.minimum('exception classes thrown by the library', len(thrown), 5)
 
 
+def name_adder_dispatch_rule(prog, res):
+    """c3d::point(name) / c3d::analog(name): a pending name is handed to updateParameters only on an empty data
+    set, because updateParameters refuses pending names when frames exist; a dispatch test that lets a
+    non-empty data set through turns a valid column call into a refusal (caller's belief vs callee's check)"""
+    import indexsites as IS
+    up = [f for f in prog.fns('ezc3d::c3d::updateParameters') if len(f.rec.get('params', [])) == 2]
+    if not up:
+        raise AnalysisBroken('c3d::updateParameters(newPoints, newAnalogs) vanished')
+    up = up[0]
+    RU = Renderer(up)
+    FR = 'this._data._frames.size'
+    refuses = set()
+    for n in up.all_nodes({'IfStmt'}):
+        c = RU.render(n['cond'])
+        th = n.get('then')
+        if th is None or not any(up.nodes[x]['k'] == 'CXXThrowExpr' for x in [th] + list(up.descendants(th))):
+            continue
+        if FR in c:
+            for k in (0, 1):
+                if 'arg%d.size' % k in c or 'arg%d.empty' % k in c:
+                    refuses.add(k)
+    n_sites = 0
+    for q in ('ezc3d::c3d::point', 'ezc3d::c3d::analog'):
+        for f in prog.fns(q):
+            ps = f.rec.get('params', [])
+            if len(ps) != 1 or 'basic_string' not in ps[0]['type'] or 'vector' in ps[0]['type']:
+                continue
+            R = Renderer(f)
+            for c in f.calls():
+                if c['callee'].get('usr') != up.usr and not (c['callee']['name'] == 'updateParameters' and c['callee'].get('class') == 'ezc3d::c3d'):
+                    continue
+                args = [R.render(a) for a in f.call_args(c)]
+                pend = [k for k, a in enumerate(args) if k in refuses and a != 'default' and not a.endswith('{}')]
+                if not pend:
+                    continue
+                n_sites += 1
+                inst = 'c3d::%s(name) -> updateParameters(pending name)' % f.name
+                facts = [(op, r) for l, op, r, _ in IS.facts_at(f, R, c['id']) if l == FR]
+                if any((op, r) in (('==', '0'), ('<=', '0'), ('<', '1')) for op, r in facts):
+                    res.ok('name-dispatch', inst, f.loc(c['id']), 'reached only when no frame is stored; updateParameters refuses pending names otherwise', function=f.sig, expr='dispatch:' + f.name)
+                elif facts:
+                    res.viol('name-dispatch', inst, f.loc(c['id']), 'the pending name reaches updateParameters whenever frames.size %s: updateParameters refuses pending names on every non-empty data set, '
+                             'so a valid column call on such a data set is refused' % ' and '.join('%s %s' % x for x in facts), function=f.sig, expr='dispatch:' + f.name)
+                else:
+                    res.undecided('name-dispatch', inst, f.loc(c['id']), 'no test of the frame count dominates the call while updateParameters refuses pending names on a non-empty data set [shape not read by the rule]',
+                                  function=f.sig, expr='dispatch:' + f.name)
+    res.info['name_dispatch_sites'] = n_sites
+    if refuses and n_sites == 0:
+        res.undecided('name-dispatch', 'c3d::point(name)/analog(name)', up.loc(), 'updateParameters refuses pending names on a non-empty data set, but the name adders do not hand their pending name to it directly [shape not read by the rule]', function=up.sig, expr='dispatch')
+
+
 def run(prog, tier):
     contract = load_contract()
     res = Result('C07', tier,
@@ -420,4 +471,10 @@ def run(prog, tier):
     duplicate_rule(prog, res, 'ezc3d::c3d::analog', 'const std::vector<ezc3d::DataNS::Frame> &', 'ANALOG', r'^arg0\[0\]\._analogs\.subframe\(0\)\.channel\(local:(\w+)\)\._name$')
     lock_rule(prog, res)
     binding_rule(prog, res, contract)
+    name_adder_dispatch_rule(prog, res)
+    # a positional look-up inside the guard prefix that the guards before it do not cover throws std::out_of_range
+    # instead of the documented class (or refuses a valid call)
+    import indexsites
+    muts = [f for f in prog.repo_funcs() if f.cls == 'ezc3d::c3d' and f.name in ('frame', 'point', 'analog')]
+    indexsites.const_accessor_rule(prog, res, muts, rule_name='guard-positions')
     return res
